@@ -1,6 +1,8 @@
 From Coq Require Import List Arith.
 Import ListNotations.
 From UJ Require Import Engine.Engine Engine.EngineTerm.
+From Coq Require Import Permutation.
+From UJ Require Import Base.Topo Base.TopoProofs Base.Graph Cache.Prune Cache.PruneProofs.
 
 (** Every step strictly decreases a natural-number measure: no infinite run, for any graph, worker count,
     failure pattern, max_errors and interleaving (interrupts included). *)
@@ -33,3 +35,27 @@ Theorem C07_nothing_running_at_return :
   forall (c : cfg) (s : st), cfg_ok c -> reachable c s -> intr s <> Some ISpawn -> final s -> inflight s = 0.
 Proof. exact final_no_running. Qed.
 Print Assumptions C07_nothing_running_at_return.
+
+(** assert_acyclic (Kahn) succeeds exactly on acyclic graphs; a failure comes with a real cycle. *)
+Theorem C07_cycle_rejected :
+  forall g : graph, graph_wf g -> (kahn g <> None <-> acyclic g).
+Proof. exact kahn_some_iff_acyclic. Qed.
+Print Assumptions C07_cycle_rejected.
+
+Theorem C07_cycle_witness :
+  forall g : graph, graph_wf g -> kahn g = None -> exists n, reach g n n.
+Proof. exact kahn_none_cycle_witness. Qed.
+Print Assumptions C07_cycle_witness.
+
+Theorem C07_kahn_order :
+  forall (g : graph) (l : list nat), graph_wf g -> kahn g = Some l ->
+  Permutation l (nodes g) /\ forall a b, edge g a b -> before a b l.
+Proof. exact kahn_order_topological. Qed.
+Print Assumptions C07_kahn_order.
+
+(** pruning cannot create a cycle (so no late HasACycle after pruning) *)
+Theorem C07_prune_acyclic :
+  forall (p : pgraph) (required : list nat) (output : option nat),
+  acyclic (to_graph p) -> acyclic (to_graph (prune_plan p required output)).
+Proof. exact prune_acyclic. Qed.
+Print Assumptions C07_prune_acyclic.
